@@ -298,6 +298,8 @@ pub struct GenCfg {
     pub zero_pct: u32,
     /// probability (percent) that a layered order has nothing hidden (None: zero_pct + 5)
     pub hid_zero_pct: Option<u32>,
+    /// percentage of orders whose own price differs from the level's (nothing enforces equality)
+    pub off_price_pct: u32,
     /// match quantities are sums of the displayed quantities of a prefix of the arrival order
     pub exact_fills: bool,
     pub reuse_ids: bool,
@@ -323,6 +325,7 @@ impl GenCfg {
             qmax: 20,
             zero_pct: 3,
             hid_zero_pct: None,
+            off_price_pct: 0,
             exact_fills: false,
             reuse_ids: true,
             ts: TsMode::Increasing,
@@ -478,7 +481,12 @@ impl Gen {
         } else {
             self.side
         };
-        Some(model::mk(kind, id, self.price, v, h, side, ts, tif, &p))
+        let oprice = if self.cfg.off_price_pct > 0 && self.rng.below(100) < self.cfg.off_price_pct as u64 {
+            self.price + 1 + self.rng.below(7)
+        } else {
+            self.price
+        };
+        Some(model::mk(kind, id, oprice, v, h, side, ts, tif, &p))
     }
 
     /// make the next fresh id at least `n` (continuations must not collide with earlier ids)
